@@ -174,7 +174,16 @@ func GenGenuine(r *rand.Rand, w *World, o GenOpts) *Genuine {
 			used += 1 + nv
 			a.Attrs = append(a.Attrs, at)
 		}
-		if na == 0 && r.IntN(2) == 0 {
+		if n == 1 && r.IntN(25) == 0 {
+			// one attribute with hundreds of values: 501-990 elements in total, still under goxmldsig's per-traversal budget
+			big := sim.AttrRec{Name: sim.S("groups-big")}
+			for k := 450 + r.IntN(480) - used; k > 0; k-- {
+				big.Values = append(big.Values, sim.AttrVal{Value: fmt.Sprintf("g%d", k)})
+			}
+			a.Attrs = append(a.Attrs, big)
+			a.HasAttrStmt = true
+		}
+		if len(a.Attrs) == 0 && r.IntN(2) == 0 {
 			a.HasAttrStmt = false
 		}
 		// authn statement
